@@ -1,11 +1,16 @@
 // C01 harness: generated designs are simulated as constructed (reference trace), after every post-processing pass
 // (through the GATERY_VERIF pass-boundary hook) and after the complete post-processing (default and minimal), on the same stimulus.
-// Usage: c01 <seed> <ncases> <nsteps> [only-case]
+// Usage: c01 <seed> <ncases> <nsteps> [only-case]   |   c01 <seed> <ncases> rw [only-case]  (Node_Rewire::optimize stream)
 #include <gatery/pch.h>
 #include "designgen.h"
 #include "netdump.h"
 #include <gatery/hlim/Circuit.h>
 #include <iostream>
+#include <map>
+#include <sstream>
+#include <gatery/hlim/coreNodes/Node_Rewire.h>
+#include <gatery/hlim/coreNodes/Node_Constant.h>
+#include <gatery/hlim/coreNodes/Node_Signal.h>
 
 using namespace gtry;
 using vh::Rng;
@@ -139,14 +144,150 @@ static bool runOne(uint64_t k, const vh::Recipe &recipe, bool minimal, bool with
 	}
 }
 
+// Direct tie of one pass function: Node_Rewire::optimize() on generated rewire operations (ranges of width zero, constant all-zero /
+// all-one / mixed / partly undefined drivers behind 0..2 signal nodes, inputs sharing a driver, unconnected inputs, neighbouring ranges
+// that continue each other). Printed: the operation and wiring before and after; the driver replays Gatery.C01.rewireOptimize and
+// evaluates both operations with Gatery.Nodes.evalRewire on the printed driver values.
+static std::string rangesToString(const hlim::Node_Rewire::RewireOperation &op) {
+	std::ostringstream o;
+	if (op.ranges.empty()) return "-";
+	for (size_t k = 0; k < op.ranges.size(); k++) {
+		if (k) o << ',';
+		const auto &rg = op.ranges[k];
+		switch (rg.source) {
+			case hlim::Node_Rewire::OutputRange::INPUT: o << "i:" << rg.inputIdx << ':' << rg.inputOffset << ':' << rg.subwidth; break;
+			case hlim::Node_Rewire::OutputRange::CONST_ZERO: o << "z:" << rg.subwidth; break;
+			case hlim::Node_Rewire::OutputRange::CONST_ONE: o << "o:" << rg.subwidth; break;
+			default: o << "u:" << rg.subwidth; break;
+		}
+	}
+	return o.str();
+}
+
+static void runRewireOpt(uint64_t k, Rng &rng, std::ostream &out) {
+	std::ostringstream o;
+	try {
+		DesignScope design;
+		auto &circ = design.getCircuit();
+		auto *grp = circ.getRootNodeGroup();
+		// sources: constants (all zero / all one / mixed / with undefined bits) and pins
+		struct Src { hlim::NodePort port; char kind; size_t width; std::string value; };
+		std::vector<Src> srcs;
+		size_t nsrc = 1 + rng.below(4);
+		for (size_t i = 0; i < nsrc; i++) {
+			size_t w = rng.chance(1, 10) ? 0 : (rng.chance(1, 6) ? 60 + rng.below(80) : 1 + rng.below(12));
+			unsigned cls = (unsigned) rng.below(6);
+			std::string v;
+			char kind = 'n';
+			if (cls == 0) { v.assign(w, '0'); kind = 'z'; }
+			else if (cls == 1) { v.assign(w, '1'); kind = w == 0 ? 'z' : 'o'; }
+			else {
+				bool withX = cls == 3 || cls == 5;
+				for (size_t b = 0; b < w; b++) v.push_back(withX && rng.chance(1, 3) ? 'x' : (rng.chance(1, 2) ? '1' : '0'));
+				bool allDef = v.find('x') == std::string::npos;
+				if (cls <= 3) { // a constant that happens to be all zero / all one is classified as such
+					if (allDef && v.find('1') == std::string::npos) kind = 'z';
+					else if (allDef && v.find('0') == std::string::npos) kind = 'o';
+				}
+			}
+			if (v.empty()) v = "-";
+			hlim::NodePort port;
+			if (cls <= 3 || w == 0) {
+				auto *c = circ.createNode<hlim::Node_Constant>(vh::bitsFromString(v), hlim::ConnectionType{ .type = hlim::ConnectionType::BITVEC, .width = w });
+				c->moveToGroup(grp);
+				port = {.node = c, .port = 0};
+			} else {
+				UInt x = pinIn(BitWidth(w));
+				port = x.readPort();
+				kind = 'n';
+			}
+			srcs.push_back({port, kind, w, v});
+		}
+		// connection points: a source directly or through 1..2 signal nodes (each its own driver identity for the deduplication)
+		struct Conn { hlim::NodePort port; size_t src; };
+		std::vector<Conn> conns;
+		for (size_t i = 0; i < srcs.size(); i++) {
+			conns.push_back({srcs[i].port, i});
+			size_t nsig = rng.below(3);
+			hlim::NodePort p = srcs[i].port;
+			for (size_t j = 0; j < nsig; j++) {
+				auto *sig = circ.createNode<hlim::Node_Signal>();
+				sig->moveToGroup(grp);
+				sig->connectInput(p);
+				p = {.node = sig, .port = 0};
+				conns.push_back({p, i});
+			}
+		}
+		size_t nin = rng.below(6);
+		auto *rew = circ.createNode<hlim::Node_Rewire>(nin);
+		rew->moveToGroup(grp);
+		std::vector<int> inConn(nin, -1);
+		for (size_t i = 0; i < nin; i++) {
+			if (rng.chance(1, 12)) continue; // unconnected
+			inConn[i] = (int) rng.below(conns.size());
+			rew->connectInput(i, conns[inConn[i]].port);
+		}
+		hlim::Node_Rewire::RewireOperation op;
+		size_t nr = rng.below(9);
+		int prevIn = -1; size_t prevEnd = 0;
+		for (size_t r = 0; r < nr; r++) {
+			unsigned what = (unsigned) rng.below(10);
+			if (what < 6 && nin > 0) {
+				size_t idx = rng.below(nin);
+				size_t width = inConn[idx] < 0 ? 8 : srcs[conns[inConn[idx]].src].width;
+				size_t off = width ? rng.below(width) : 0;
+				if (prevIn >= 0 && rng.chance(1, 2)) { // continue the previous range: same input port or another port with the same source
+					if (rng.chance(2, 3)) idx = (size_t) prevIn;
+					else for (size_t j = 0; j < nin; j++) if (inConn[j] >= 0 && inConn[prevIn] >= 0 && conns[inConn[j]].src == conns[inConn[prevIn]].src && rng.chance(1, 2)) { idx = j; break; }
+					width = inConn[idx] < 0 ? 8 : srcs[conns[inConn[idx]].src].width;
+					off = std::min(prevEnd, width);
+				}
+				size_t sub = rng.chance(1, 8) ? 0 : (width > off ? 1 + rng.below(std::min<size_t>(width - off, rng.chance(1, 4) ? 70 : 5)) : 0);
+				op.ranges.push_back({.subwidth = sub, .source = hlim::Node_Rewire::OutputRange::INPUT, .inputIdx = idx, .inputOffset = off}); // not addInput: it skips width zero
+				prevIn = (int) idx; prevEnd = off + sub;
+			} else {
+				auto t = what == 6 || what == 7 ? hlim::Node_Rewire::OutputRange::CONST_ZERO : what == 8 ? hlim::Node_Rewire::OutputRange::CONST_ONE : hlim::Node_Rewire::OutputRange::CONST_UNDEFINED;
+				if (what < 6) t = hlim::Node_Rewire::OutputRange::CONST_ZERO;
+				op.ranges.push_back({.subwidth = rng.chance(1, 8) ? 0 : 1 + rng.below(rng.chance(1, 5) ? 70 : 4), .source = t, .inputIdx = 0, .inputOffset = 0});
+			}
+		}
+		rew->setOp(op);
+		// identities of the directly connected drivers
+		std::map<hlim::NodePort, size_t> ids;
+		auto idOf = [&](hlim::NodePort p) { auto it = ids.find(p); if (it != ids.end()) return it->second; size_t id = ids.size(); ids[p] = id; return id; };
+		o << "case " << k << "rw nodes=" << circ.getNodes().size() << '\n';
+		o << "rwk "; if (nin == 0) o << '.'; for (size_t i = 0; i < nin; i++) { if (i) o << ','; o << (inConn[i] < 0 ? 'n' : srcs[conns[inConn[i]].src].kind); } o << '\n';
+		o << "rwd "; if (nin == 0) o << '.'; for (size_t i = 0; i < nin; i++) { if (i) o << ','; if (inConn[i] < 0) o << '-'; else o << idOf(conns[inConn[i]].port); } o << '\n';
+		for (size_t i = 0; i < nin; i++) if (inConn[i] >= 0) o << "rwv " << idOf(conns[inConn[i]].port) << ' ' << srcs[conns[inConn[i]].src].value << '\n';
+		o << "rwr " << rangesToString(rew->getOp()) << '\n';
+		rew->optimize();
+		o << "rwod "; if (rew->getNumInputPorts() == 0) o << '.';
+		for (size_t i = 0; i < rew->getNumInputPorts(); i++) {
+			if (i) o << ',';
+			auto d = rew->getDriver(i);
+			if (!d.node) o << '-';
+			else { auto it = ids.find(d); if (it == ids.end()) o << "?"; else o << it->second; }
+		}
+		o << '\n';
+		o << "rwor " << rangesToString(rew->getOp()) << '\n';
+		o << "rwe\nend\n";
+		out << o.str();
+	} catch (const std::exception &e) {
+		std::string msg = e.what(); for (auto &ch : msg) if (ch == '\n') ch = ' ';
+		out << "# case " << k << "rw not constructible: " << msg.substr(0, 160) << '\n';
+	}
+}
+
 int main(int argc, char **argv) {
 	uint64_t seed = vh::argU64(argc, argv, 1, 1), ncases = vh::argU64(argc, argv, 2, 50), nsteps = vh::argU64(argc, argv, 3, 25), only = vh::argU64(argc, argv, 4, ~0ull);
 	std::ios::sync_with_stdio(false);
 	std::cout << "# prop=C01 seed=" << seed << " cases=" << ncases << " nsteps=" << nsteps << "\n";
 	Rng top(seed * 0x100000001b3ull + 1);
+	bool rewireMode = argc > 3 && std::string(argv[3]) == "rw";
 	for (uint64_t k = 0; k < ncases; k++) {
 		Rng rng = top.fork();
 		if (only != ~0ull && k != only) continue;
+		if (rewireMode) { runRewireOpt(k, rng, std::cout); continue; }
 		vh::GenOpts go;
 		go.nInputs = 2 + rng.below(4);
 		go.nSteps = 3 + rng.below(nsteps);
